@@ -245,6 +245,8 @@ def r6_std_wrappers(text):
     text, n = _call_rewrite(text, r'Vec::from', lambda p, a: f'vec_from_box({a[0]})' if len(a) == 1 else None)
     total += n
 
+    text, n = re.subn(r'\b(\w+)\.write\(\s*(\w+)\s*\)\s*\.expect\(\s*"[^"]*"\s*\)', r'slice_write(\1, \2)', text)
+    total += n
     text, n = _call_rewrite(text, r'min', lambda p, a: f'min_usize({a[0]}, {a[1]})' if len(a) == 2 else None)
     total += n
     text, n = _call_rewrite(text, r'max', lambda p, a: f'max_usize({a[0]}, {a[1]})' if len(a) == 2 else None)
@@ -346,10 +348,10 @@ def apply_all(text, item_kind=None, header_only=False):
             continue
         if item_kind == 'macro' and name in ('R4',):
             continue
-        try:
-            text, n = fn(text)
-        except TypeError:
+        if 'item_kind' in fn.__code__.co_varnames[:fn.__code__.co_argcount]:
             text, n = fn(text, item_kind)
+        else:
+            text, n = fn(text)
         if n:
             counts[name] = counts.get(name, 0) + n
     return text, counts
